@@ -28,6 +28,10 @@
  *     o                        tickit_tick(NOSETUP): ppoll sleeps for the time-out asked
  *     R<fdi>:<revents>         descriptor fdi is ready with revents at the next ppoll
  *     K<sig>                   sig arrives while the next ppoll is waiting
+ *     B<sig>                   (F cases) sig arrives right after the next read of the self-pipe's wakeup byte
+ *   a case that starts with the token F uses a minimal custom event loop that has no ->signal
+ *   hook, so that the library's self-pipe fallback handles signals (unblocked: the handler runs
+ *   at once); poll() is then the real one
  *   the instance is destroyed at the end of every case.
  * Watches are numbered 0,1,2.. in order of registration (all kinds share the counter).
  * <fl> are TICKIT_BIND_* bits, <cb> indexes the cb table: what the callback does when it is
@@ -221,6 +225,72 @@ static void run_acts(const char *acts, int toplevel)
   }
 }
 
+/* ---- a minimal event loop WITHOUT a ->signal hook (cases that start with the token F): the
+ * library then uses its self-pipe fallback (tickit.c sighandler / on_sigpipe_readable); signals
+ * are not blocked, the handler runs at once.  poll() is the real one, with a zero time-out. */
+#include "tickit-evloop.h"
+#define FMAXFD 32
+typedef struct { Tickit *t; int running, n; int used[FMAXFD]; struct pollfd pfd[FMAXFD]; TickitWatch *w[FMAXFD]; } FLoop;
+static int sigpipe_rd = -1;        /* read end of the library's self-pipe: the first fd it watches */
+static int between[8], nbetween;   /* signals that arrive right after the wakeup byte has been read */
+
+static void *f_init(Tickit *t, void *initdata) { FLoop *l = calloc(1, sizeof *l); l->t = t; return l; }
+static void f_destroy(void *data) { free(data); }
+static void f_stop(void *data) { ((FLoop *)data)->running = 0; }
+static void f_run(void *data, TickitRunFlags flags)
+{
+  FLoop *l = data;
+  l->running = 1;
+  while(l->running) {
+    struct pollfd snap[FMAXFD];
+    int n = l->n;
+    for(int i = 0; i < n; i++) { snap[i] = l->pfd[i]; snap[i].revents = 0; if(!l->used[i]) snap[i].fd = -1; }
+    OUT("p0 ");
+    int ret = poll(snap, n, 0);
+    tickit_evloop_invoke_timers(l->t);
+    if(ret > 0)
+      for(int i = 0; i < n; i++) {
+        if(!l->used[i] || l->pfd[i].fd != snap[i].fd || !snap[i].revents) continue;
+        TickitIOCondition cond = 0;
+        if(snap[i].revents & POLLIN)  cond |= TICKIT_IO_IN;
+        if(snap[i].revents & POLLHUP) cond |= TICKIT_IO_HUP;
+        if(snap[i].revents & POLLERR) cond |= TICKIT_IO_ERR;
+        tickit_evloop_invoke_iowatch(l->w[i], TICKIT_EV_FIRE, cond);
+      }
+    if(flags & (TICKIT_RUN_ONCE|TICKIT_RUN_NOHANG)) return;
+  }
+}
+static bool f_io(void *data, int fd, TickitIOCondition cond, TickitBindFlags flags, TickitWatch *watch)
+{
+  FLoop *l = data; int i;
+  for(i = 0; i < l->n; i++) if(!l->used[i]) break;
+  if(i == FMAXFD) return false;
+  if(i == l->n) l->n++;
+  l->used[i] = 1; l->pfd[i].fd = fd; l->pfd[i].events = (cond & TICKIT_IO_IN) ? POLLIN : 0; l->pfd[i].revents = 0; l->w[i] = watch;
+  tickit_evloop_set_watch_data_int(watch, i);
+  if(sigpipe_rd == -2 && fd >= 0) sigpipe_rd = fd;   /* -2: waiting for the library's first real descriptor */
+  return true;
+}
+static void f_cancel_io(void *data, TickitWatch *watch)
+{
+  FLoop *l = data; int i = tickit_evloop_get_watch_data_int(watch);
+  l->used[i] = 0; l->pfd[i].fd = -1; l->w[i] = NULL;
+}
+static TickitEventHooks f_hooks = { .init = f_init, .destroy = f_destroy, .run = f_run, .stop = f_stop, .io = f_io, .cancel_io = f_cancel_io };
+
+/* link-time replacement of read(): after the library has read from its self-pipe, the signals
+ * scripted with B<sig> arrive (between the wakeup read and the snapshot of the pending set) */
+ssize_t __real_read(int fd, void *buf, size_t n);
+ssize_t __wrap_read(int fd, void *buf, size_t n)
+{
+  ssize_t r = __real_read(fd, buf, n);
+  if(fd == sigpipe_rd && sigpipe_rd >= 0 && nbetween) {
+    int k = nbetween; nbetween = 0;
+    for(int i = 0; i < k; i++) if(is_watched(between[i])) raise(between[i]);
+  }
+  return r;
+}
+
 static void loop_case(void)
 {
   size_t heap_before = __sanitizer_get_current_allocated_bytes();
@@ -228,8 +298,10 @@ static void loop_case(void)
   nws = 0; vclock = 0; iter = 0; ninwait = 0; sleep_mode = 0;
   for(int i = 0; i < MAXCB; i++) cbs[i] = ubs[i] = NULL;
   for(int j = 0; j < NFD; j++) ready[j] = 0;
-  T = tickit_build(&(struct TickitBuilder){ .tt = (TickitTerm *)tickit_mockterm_new(2, 2) });
-  for(int i = 0; i < vh_ntok; i++) {
+  int fallback = vh_ntok > 0 && strcmp(vh_tok[0], "F") == 0;
+  nbetween = 0; sigpipe_rd = fallback ? -2 : -1;
+  T = tickit_build(&(struct TickitBuilder){ .tt = (TickitTerm *)tickit_mockterm_new(2, 2), .evhooks = fallback ? &f_hooks : NULL });
+  for(int i = fallback; i < vh_ntok; i++) {
     char *a = vh_tok[i];
     if((a[0] == 'c' || a[0] == 'u') && a[1] == 'b') {
       char *eq = strchr(a, '=');
@@ -252,6 +324,9 @@ static void loop_case(void)
     }
     else if(a[0] == 'K') {
       if(ninwait < 8) inwait[ninwait++] = atoi(a + 1);
+    }
+    else if(a[0] == 'B') {
+      if(nbetween < 8) between[nbetween++] = atoi(a + 1);
     }
   }
   iter = -1;
